@@ -66,7 +66,7 @@ def omp_worker(acc, shard, nshards, tier, seed, exe):
     for k, g in enumerate(omp_groups(tier)):
         if k % nshards != shard:
             continue
-        r = subprocess.run([exe] + [str(x) for x in g], stdout=subprocess.PIPE, stderr=subprocess.PIPE, text=True, errors='replace')
+        r = core.run_beating([exe] + [str(x) for x in g])
         m = re.search(r'STAT entry=(\d+) n=(\d+) configs=(\d+) execs=(\d+) points_total=(\d+) points_max=(\d+) multi_thread_execs=(\d+) racy_configs=(\d+) viol=(\d+) caps=(\d+)', r.stdout or '')
         tags = {'part': 'openmp', 'entry': g[0], 'n': g[1]}
         if not m:
